@@ -5,12 +5,14 @@
   "Every interleaving" = every finite action list `as`; reachable configurations are `run init as`.
   Helper lemmas and the inductive invariants are in GoSecs/Lemmas/Supervisor.lean.
 
-  Full-strength clauses of the property that do NOT hold of the model — and, replayed action for
-  action by the harness, of the real supervisor — are stated below as `counterexample_*` theorems;
-  what is proved instead is named `*_partial` with the extra hypothesis visible.
+  Events that report something about ONE TCP generation / ONE NotSelected dwell (disconnect, T7 expiry)
+  carry that generation's / dwell's sequence number, and the supervisor ignores one that is older than
+  the current number (findings F7 and F7b, repaired in the repository; the schedules on which they
+  showed are kept below as regression theorems and replayed by the harness on the real supervisor).
 -/
 import GoSecs.Lemmas.Supervisor
 import GoSecs.Lemmas.SupervisorReplay
+import GoSecs.Lemmas.SupervisorTags
 import GoSecs.Gen.Consts
 import GoSecs.Gen.Funcs
 import GoSecs.Gen.Facts
@@ -23,7 +25,7 @@ open GoSecs GoSecs.Sup
 /-- The Go `transition` table is the E37 table, for all 3 × 6 (state, event) pairs. -/
 theorem transition_gen (cur : St) (ev : Ev) :
     Gen.hsms_transition cur.toNat ev.toNat = (((transition cur ev).1.toNat : Int), (transition cur ev).2) := by
-  cases cur <;> cases ev <;> decide
+  cases cur <;> cases ev <;> rfl
 
 /-- Any event value outside the six defined ones is a no-op in the Go table. -/
 theorem transition_gen_unknown (cur ev : Int) (h : ev < 0 ∨ 5 < ev) :
@@ -41,9 +43,11 @@ theorem consts_gen :
     Gen.hsms_NotConnectedState = St.NC.toNat ∧ Gen.hsms_NotSelectedState = St.NS.toNat ∧
     Gen.hsms_SelectedState = St.S.toNat ∧
     Gen.hsms_evTCPUp = Ev.tcpUp.toNat ∧ Gen.hsms_evSelectAccepted = Ev.selAcc.toNat ∧
-    Gen.hsms_evSelectLost = Ev.selLost.toNat ∧ Gen.hsms_evDisconnect = Ev.disc.toNat ∧
-    Gen.hsms_evClose = Ev.close.toNat ∧ Gen.hsms_evT7Timeout = Ev.t7.toNat ∧
-    Gen.hsms_supervisorNotifyCap = notifyCap := by decide
+    Gen.hsms_evSelectLost = Ev.selLost.toNat ∧ (∀ g, Gen.hsms_evDisconnect = (Ev.disc g).toNat) ∧
+    Gen.hsms_evClose = Ev.close.toNat ∧ (∀ d, Gen.hsms_evT7Timeout = (Ev.t7 d).toNat) ∧
+    Gen.hsms_supervisorNotifyCap = notifyCap := by
+  refine ⟨by decide, by decide, by decide, by decide, by decide, by decide, fun _ => rfl, by decide,
+    fun _ => rfl, by decide⟩
 
 /-- The only writers of the `state` atomic in package hsms are the three commits (each a CAS along
     an edge of the diagram), `step` (a plain Store and the CAS used for T7) and the terminal
@@ -71,19 +75,23 @@ theorem legal_edges (as : List Act) (a : Act) :
 
 /-- **T7 never leaves Selected.** Whatever the run goroutine loaded, if the session is Selected when
     the T7 store would happen (a commit landed between load and store), nothing is stored. -/
-theorem t7_never_leaves_selected (c : Cfg) (cur : St) (hpc : c.pc = .loaded .t7 cur) (hs : c.st = .S) :
+theorem t7_never_leaves_selected (c : Cfg) (d : Nat) (cur : St) (hpc : c.pc = .loaded (.t7 d) cur) (hs : c.st = .S) :
     (step c .runCommit).st = .S := by
   unfold step; split
   · exact hs
-  · simp only [stepLive, hpc]; exact t7_commit_keeps_selected c cur hs
+  · simp only [stepLive, hpc]; split
+    · exact hs
+    · exact t7_commit_keeps_selected c d cur hs
 
 /-- T7 processed while Selected at the load is a no-op as well (no store, no notification). -/
-theorem t7_from_selected_noop (c : Cfg) (hpc : c.pc = .loaded .t7 .S) :
+theorem t7_from_selected_noop (c : Cfg) (d : Nat) (hpc : c.pc = .loaded (.t7 d) .S) :
     (step c .runCommit).st = c.st ∧ (step c .runCommit).emitted = c.emitted := by
   unfold step; split
   · exact ⟨rfl, rfl⟩
-  · simp only [stepLive, hpc, commit]
-    cases hs : c.st <;> cases deselPending c <;> simp [outcome, transition, latch]
+  · simp only [stepLive, hpc]; split
+    · exact ⟨rfl, rfl⟩
+    · simp only [commit]
+      cases hs : c.st <;> cases deselPending c <;> simp [outcome, transition, latch]
 
 /-- **Stale select-lost is abandoned**: observed Selected at the load, the event is dropped; state,
     notifications and reactions are untouched. -/
@@ -120,16 +128,16 @@ theorem pipelined_select_deselect :
 /-- **A disconnect reaction is never fired without the state change.** When the supervisor processes a
     disconnect or T7 event and fires a reaction (teardown, reconnect), it has published NotConnected:
     a T7 that lost the tie to a select commit fires nothing. -/
-theorem disconnect_reaction_publishes (c : Cfg) (ev : Ev) (cur : St) (hev : ev = .disc ∨ ev = .t7)
+theorem disconnect_reaction_publishes (c : Cfg) (ev : Ev) (cur : St) (hev : (∃ g, ev = .disc g) ∨ (∃ d, ev = .t7 d))
     (h : (commit c ev cur).reactions ≠ c.reactions) : (commit c ev cur).st = .NC := by
   rw [commit_st]
   cases ho : outcome ev cur c.st (deselPending c)
   · exfalso; apply h; unfold commit; simp [ho]
   · exfalso
-    rcases hev with rfl | rfl <;> cases cur <;> cases hs : c.st <;> cases hd : deselPending c <;>
+    rcases hev with ⟨g, rfl⟩ | ⟨d, rfl⟩ <;> cases cur <;> cases hs : c.st <;> cases hd : deselPending c <;>
       simp [outcome, transition, hs, hd] at ho
   · exfalso; apply h; unfold commit; simp [ho]
-  · rcases hev with rfl | rfl <;> cases cur <;> cases hs : c.st <;> cases hd : deselPending c <;>
+  · rcases hev with ⟨g, rfl⟩ | ⟨d, rfl⟩ <;> cases cur <;> cases hs : c.st <;> cases hd : deselPending c <;>
       simp_all [outcome, transition]
 
 /-- **Closed latch.** In every reachable configuration, once the close event has been processed no
@@ -148,7 +156,7 @@ theorem closed_latch (as : List Act) (h : (run init as).closed = true) :
 theorem close_stores_NC (c : Cfg) (cur : St) (hpc : c.pc = .loaded .close cur) (hs : c.st = cur) :
     c.stopped = false → (step c .runCommit).st = .NC ∧ (step c .runCommit).closed = true := by
   intro hst
-  simp only [step, hst, Bool.false_eq_true, if_false, stepLive, hpc]
+  simp only [step, hst, Bool.false_eq_true, if_false, stepLive, hpc, stale]
   refine ⟨?_, ?_⟩
   · rw [commit_st]; cases cur <;> cases deselPending c <;> simp [outcome, transition, hs]
   · rw [commit_closed]; cases cur <;> cases deselPending c <;> simp [outcome, transition]
@@ -269,13 +277,132 @@ theorem f4_window_needs_final_store :
     (run init f4Schedule).closed = true ∧ (run init f4Schedule).st = .NS ∧
     (run init (f4Schedule ++ [.injStart, .closeReturn])).st = .NC := by decide
 
-/-! ## Clauses that do NOT hold at full strength (kernel-checked counterexamples) -/
+/-! ## Stale events: an earlier TCP generation / an earlier NotSelected dwell never disturbs a later one
 
-/-  Full statement B: "each change … is never undone or replayed by the library's later internal
-    processing of an earlier event."  False when the run goroutine lags a whole reconnect behind
-    (finding F7): events carry no generation tag, so a second disconnect of generation N, processed
-    after generation N+1 was committed Selected, takes N+1 through NotConnected → NotSelected →
-    Selected again although nothing happened to it. -/
+  Full statement B: "each change … is never undone or replayed by the library's later internal
+  processing of an earlier event", and full statement C: "a session that has reached Selected is never
+  disconnected by a T7 timeout armed before it was selected."
+
+  Both used to fail when the run goroutine lagged (findings F7 / F7b: `counterexample_stale_disconnect`,
+  `counterexample_stale_t7` in earlier revisions of this file): a second disconnect report of generation
+  N, still queued when generation N+1 committed, took N+1 down; a T7 expiry still queued when the session
+  was selected and later deselected disconnected it.  The repository now tags `evDisconnect` with the TCP
+  generation and `evT7Timeout` with the NotSelected dwell current when the cause was reported, and `step`
+  ignores an event whose number is older than the current one.  The theorems below state this locally
+  (one run step), for every schedule (induction over the action list), show that nothing of the CURRENT
+  generation / dwell is discarded, and keep the two former counterexample schedules as regressions. -/
+
+/-- Nothing observable happened: state, notifications (emitted and buffered), reactions, the dedup
+    key and the close latch are as before. -/
+def Undisturbed (c c' : Cfg) : Prop :=
+  c'.st = c.st ∧ c'.emitted = c.emitted ∧ c'.notify = c.notify ∧ c'.reactions = c.reactions ∧
+  c'.lastReacted = c.lastReacted ∧ c'.closed = c.closed ∧ c'.dropped = c.dropped
+
+theorem undisturbed_refl (c : Cfg) : Undisturbed c c := ⟨rfl, rfl, rfl, rfl, rfl, rfl, rfl⟩
+
+/-- **A stale disconnect is ignored.** A disconnect event tagged with generation `g`, processed when
+    the current generation is larger, only returns the run goroutine to idle: no store, no reaction,
+    no notification. -/
+theorem stale_disconnect_ignored (c : Cfg) (g : Nat) (cur : St) (hst : c.stopped = false)
+    (hpc : c.pc = .loaded (.disc g) cur) (hg : g < c.gen) :
+    step c .runCommit = { c with pc := .idle } := by
+  simp [step, hst, stepLive, hpc, stale, hg]
+
+/-- **A stale T7 expiry is ignored**, likewise, when its dwell is older than the current one. -/
+theorem stale_t7_ignored (c : Cfg) (d : Nat) (cur : St) (hst : c.stopped = false)
+    (hpc : c.pc = .loaded (.t7 d) cur) (hd : d < c.dwell) :
+    step c .runCommit = { c with pc := .idle } := by
+  simp [step, hst, stepLive, hpc, stale, hd]
+
+/-- **The check discards nothing current.** On every schedule the tag of an event the run goroutine
+    holds is at most the current number — so an event that is not discarded belongs to exactly the
+    current generation (dwell), and is then processed by the unchanged `commit` (table, store / T7 CAS,
+    deduped reaction): the repair removes no behaviour. -/
+theorem live_tags_are_current (as : List Act) (ev : Ev) (cur : St)
+    (hpc : (run init as).pc = .loaded ev cur) (hns : stale (run init as) ev = false) :
+    (∀ g, ev = .disc g → g = (run init as).gen) ∧ (∀ d, ev = .t7 d → d = (run init as).dwell) ∧
+    step (run init as) .runCommit =
+      if (run init as).stopped then run init as else commit (run init as) ev cur := by
+  have htag := (tagInv_run as).loaded ev cur hpc
+  refine ⟨?_, ?_, ?_⟩
+  · rintro g rfl; simp [stale] at hns; simp [tagOK] at htag; omega
+  · rintro d rfl; simp [stale] at hns; simp [tagOK] at htag; omega
+  · unfold step; split
+    · rfl
+    · simp [stepLive, hpc, hns]
+
+/-- The injectors tag with the number current at the call. -/
+theorem inject_tags (c : Cfg) (hst : c.stopped = false) :
+    (step c (.inject .disc)).queue = c.queue ++ [.disc c.gen] ∧
+    (step c (.inject .t7)).queue = c.queue ++ [.t7 c.dwell] := by
+  simp [step, hst, stepLive, Inj.toEv]
+
+/-- **A disconnect of an earlier generation never disturbs a later one — every schedule.**
+    Take any reachable configuration `c1` and any disconnect report of a generation `g ≤ c1.gen` (in
+    particular the event `TCPDown` enqueues at `c1`, `inject_tags`).  Let anything happen (`as2`), let a
+    reconnect's TCP-up commit succeed, let anything happen again (`as3`: the new generation selects,
+    exchanges data, …).  Whenever the run goroutine then gets to a disconnect event of generation `g`,
+    processing it changes nothing. -/
+theorem disconnect_never_disturbs_later_generation (as1 as2 as3 : List Act) (g : Nat) (cur : St)
+    (hg : g ≤ (run init as1).gen)
+    (hst : (run (run init as1) as2).stopped = false)
+    (hps : (run (run init as1) as2).pendStart = none) (hnc : (run (run init as1) as2).st = .NC)
+    (hpc : (run (step (run (run init as1) as2) .casConnected) as3).pc = .loaded (.disc g) cur) :
+    Undisturbed (run (step (run (run init as1) as2) .casConnected) as3)
+      (step (run (step (run (run init as1) as2) .casConnected) as3) .runCommit) := by
+  have h2 := gen_mono_run as2 (run init as1)
+  have h3 := (casConnected_gen _ hst hps hnc).1
+  have h4 := gen_mono_run as3 (step (run (run init as1) as2) .casConnected)
+  generalize run (step (run (run init as1) as2) .casConnected) as3 = c3 at *
+  cases hs3 : c3.stopped
+  · rw [stale_disconnect_ignored c3 g cur hs3 hpc (by omega)]; exact undisturbed_refl c3
+  · simp only [step, hs3, if_true]; exact undisturbed_refl c3
+
+/-- **A session that has reached Selected is never disconnected by a T7 armed before it was selected —
+    every schedule.**  Take any reachable configuration `c1` and any T7 expiry of a dwell `d ≤ c1.dwell`
+    (in particular the event `T7Expired` enqueues at `c1`).  Let anything happen (`as2`), let a Select
+    commit succeed, let anything happen again (`as3`: the peer deselects, the link drops and reconnects,
+    the run goroutine lags arbitrarily, commits land inside its load/store window, …).  Whenever the run
+    goroutine then gets to a T7 event of dwell `d`, processing it changes nothing: no store, no
+    reaction, no notification. -/
+theorem t7_never_disconnects_later_dwell (as1 as2 as3 : List Act) (d : Nat) (cur : St)
+    (hd : d ≤ (run init as1).dwell)
+    (hst : (run (run init as1) as2).stopped = false)
+    (hpr : (run (run init as1) as2).pendRecv = none) (hns : (run (run init as1) as2).st = .NS)
+    (hpc : (run (step (run (run init as1) as2) .casSelected) as3).pc = .loaded (.t7 d) cur) :
+    Undisturbed (run (step (run (run init as1) as2) .casSelected) as3)
+      (step (run (step (run (run init as1) as2) .casSelected) as3) .runCommit) := by
+  have h2 := dwell_mono_run as2 (run init as1)
+  obtain ⟨hS, hdw⟩ := casSelected_ok _ hst hpr hns
+  -- the invariant holds right after the Select commit, for the dwell it was committed in
+  have hinv : DwellInv (run (run init as1) as2).dwell (step (run (run init as1) as2) .casSelected) :=
+    ⟨by omega, fun _ => by rw [hS]; simp⟩
+  have h3 := dwellInv_run _ as3 _ hinv
+  generalize run (step (run (run init as1) as2) .casSelected) as3 = c3 at *
+  generalize (run (run init as1) as2).dwell = d2 at *
+  obtain ⟨hle, hne⟩ := h3
+  cases hs3 : c3.stopped
+  · by_cases hlt : d < c3.dwell
+    · rw [stale_t7_ignored c3 d cur hs3 hpc hlt]; exact undisturbed_refl c3
+    · -- same dwell as the Select commit: the state is Selected or NotConnected, T7 is a no-op / loses its CAS
+      have hst3 : c3.st ≠ .NS := hne (by omega)
+      have hstale : stale c3 (.t7 d) = false := by simp [stale]; omega
+      simp only [step, hs3, Bool.false_eq_true, if_false, stepLive, hpc, hstale, commit]
+      cases cur <;> cases h : c3.st <;> cases deselPending c3 <;>
+        simp_all [outcome, transition, latch, Undisturbed]
+  · simp only [step, hs3, if_true]; exact undisturbed_refl c3
+
+/-- In particular `State()` is not moved (the literal reading of the clause). -/
+theorem t7_never_disconnects_later_dwell_state (as1 as2 as3 : List Act) (d : Nat) (cur : St)
+    (hd : d ≤ (run init as1).dwell)
+    (hst : (run (run init as1) as2).stopped = false)
+    (hpr : (run (run init as1) as2).pendRecv = none) (hns : (run (run init as1) as2).st = .NS)
+    (hpc : (run (step (run (run init as1) as2) .casSelected) as3).pc = .loaded (.t7 d) cur) :
+    (step (run (step (run (run init as1) as2) .casSelected) as3) .runCommit).st =
+      (run (step (run (run init as1) as2) .casSelected) as3).st :=
+  (t7_never_disconnects_later_dwell as1 as2 as3 d cur hd hst hpr hns hpc).1
+
+/-! ### The former counterexample schedules, as regressions (replayed by the harness on the real supervisor) -/
 
 def f7Schedule : List Act :=
   [.casConnected, .injStart, .casSelected, .injRecv,            -- generation N up and selected
@@ -285,14 +412,16 @@ def f7Schedule : List Act :=
    .casConnected, .injStart, .casSelected, .injRecv,            -- generation N+1 commits up to Selected
    .runLoad, .runCommit]                                        -- stale second disconnect of N processed
 
-theorem counterexample_stale_disconnect :
-    (run init (f7Schedule.take 16)).st = .S ∧ (run init f7Schedule).st = .NC ∧
-    (run init f7Schedule).emitted = (run init (f7Schedule.take 16)).emitted := by decide
+/-- The second disconnect of generation N leaves generation N+1 Selected, with no notification. -/
+theorem f7_schedule_repaired :
+    (run init (f7Schedule.take 16)).st = .S ∧ (run init f7Schedule).st = .S ∧
+    (run init f7Schedule).emitted = (run init (f7Schedule.take 16)).emitted ∧
+    (run init f7Schedule).reactions = (run init (f7Schedule.take 16)).reactions := by decide
 
-/-  Full statement C: "a session that has reached Selected is never disconnected by a T7 timeout
-    armed before it was selected."  Holds for the load/store tie (`t7_never_leaves_selected`) and
-    while the session stays Selected (`t7_from_selected_noop`), but a T7 event that is still queued
-    when the session is later deselected disconnects it. -/
+/-- … while the FIRST disconnect of a generation still takes it down (the behaviour is kept). -/
+theorem f7_first_disconnect_applies :
+    (run init (f7Schedule.take 10)).st = .S ∧ (run init (f7Schedule.take 12)).st = .NC ∧
+    (run init (f7Schedule.take 12)).reactions = [(.NC, .S), (.S, .NC)] := by decide
 
 def staleT7Schedule : List Act :=
   [.casConnected, .injStart, .runLoad, .runCommit,   -- NotSelected (T7 armed here)
@@ -301,16 +430,17 @@ def staleT7Schedule : List Act :=
    .casSelectLost, .injRecv,                          -- later the peer deselects (T7 re-armed afresh)
    .runLoad, .runCommit]                              -- the stale T7 is processed in NotSelected
 
-theorem counterexample_stale_t7 :
-    (run init (staleT7Schedule.take 7)).st = .S ∧ (run init staleT7Schedule).st = .NC := by decide
+/-- The T7 expiry of the first dwell leaves the session in its second dwell. -/
+theorem stale_t7_schedule_repaired :
+    (run init (staleT7Schedule.take 7)).st = .S ∧ (run init staleT7Schedule).st = .NS ∧
+    (run init staleT7Schedule).reactions = (run init (staleT7Schedule.take 9)).reactions := by decide
 
-/-- Under the hypothesis that the run goroutine has caught up (queue empty) when T7 is injected and
-    processes it before anything else happens, a Selected session survives it. -/
-theorem t7_partial (c : Cfg) (hs : c.st = .S) (hpc : c.pc = .idle) (hq : c.queue = []) (hcl : c.closed = false)
-    (hst : c.stopped = false) :
-    (run c [.inject .t7, .runLoad, .runCommit]).st = .S := by
-  cases hdp : deselPending c <;>
-    simp [run, step, stepLive, hst, hpc, hq, hcl, hs, commit, outcome, transition, latch, deselPending] <;> simp_all [deselPending]
+/-- … while a T7 expiry of the CURRENT dwell still disconnects: the first dwell's own expiry, and the
+    second dwell's own expiry after the deselect. -/
+theorem t7_current_dwell_applies :
+    (run init [.casConnected, .injStart, .runLoad, .runCommit, .inject .t7, .runLoad, .runCommit]).st = .NC ∧
+    (run init (staleT7Schedule ++ [.runLoad, .runCommit, .runLoad, .runCommit,
+      .inject .t7, .runLoad, .runCommit])).st = .NC := by decide
 
 /-! ## Non-vacuity -/
 example : (run init [.casConnected, .injStart, .runLoad, .casSelected, .runCommit]).pc = .idle ∧
